@@ -147,14 +147,14 @@ SIM_ASSUME = ["no integration delays (the harness never passes an Integration)",
 PROPS = {
     "C14": simp([("nomachines", 300, 6000), ("general", 60, 600), ("big", 3, 15)], mech=["c0s0"],
                 assumptions=SIM_ASSUME + ["time-ordered input trace; trace-derived packets-per-second limit (no explicit pps)"]),
-    "C15": simp([("general", 200, 2500), ("blocking", 100, 1200), ("timers", 50, 500), ("scenario", 40, 400), ("big", 4, 24)],
+    "C15": simp([("general", 200, 2500), ("blocking", 100, 1200), ("timers", 50, 500), ("scenario", 40, 400), ("big", 4, 24), ("crowd", 4, 60)],
                 mech=["pad", "blk", "replace", "repl-hit", "repl-bypass-hit", "agg", "pps", "moved"], assumptions=SIM_ASSUME),
-    "C16": simp([("blocking", 250, 3000), ("general", 100, 1200), ("scenario", 60, 600), ("big", 4, 24)], mech=["blk", "blkend", "bypass", "blkB", "blkR", "blk0"],
+    "C16": simp([("blocking", 250, 3000), ("general", 100, 1200), ("scenario", 60, 600), ("big", 4, 24), ("crowd", 4, 60)], mech=["blk", "blkend", "bypass", "blkB", "blkR", "blk0"],
                 assumptions=SIM_ASSUME),
-    "C17": simp([("timers", 120, 1500), ("blocking", 120, 1500), ("general", 100, 1200), ("scenario", 60, 600), ("big", 4, 24)], mech=["pad", "blk", "cancelA", "cancelL"],
+    "C17": simp([("timers", 120, 1500), ("blocking", 120, 1500), ("general", 100, 1200), ("scenario", 60, 600), ("big", 4, 24), ("crowd", 4, 60)], mech=["pad", "blk", "cancelA", "cancelL"],
                 assumptions=SIM_ASSUME),
-    "C18": simp([("timers", 250, 3000), ("general", 100, 1200), ("scenario", 60, 600), ("big", 4, 24)], mech=["timer", "timerend", "timerR", "timer0", "cancelI", "cancelL"],
+    "C18": simp([("timers", 250, 3000), ("general", 100, 1200), ("scenario", 60, 600), ("big", 4, 24), ("crowd", 4, 60)], mech=["timer", "timerend", "timerR", "timer0", "cancelI", "cancelL"],
                 assumptions=SIM_ASSUME),
-    "C19": simp([("general", 250, 3000), ("blocking", 60, 600), ("timers", 60, 600), ("nomachines", 30, 300), ("scenario", 40, 400), ("big", 4, 24)],
+    "C19": simp([("general", 250, 3000), ("blocking", 60, 600), ("timers", 60, 600), ("nomachines", 30, 300), ("scenario", 40, 400), ("big", 4, 24), ("crowd", 4, 60)],
                 assumptions=SIM_ASSUME + ["packets-per-second limits with pps mod 2^32 = 0 are excluded from the totality theorem and replayed on the implementation"]),
 }
